@@ -3,7 +3,7 @@
    which build_sampling_graph creates the annotation outputs REGENERATED from core/graph.py.  That the X spider
    wired to the record spiders computes the XOR is pyzx-level (oracle), validated on every run by comparing the
    detector sampler's exact joint distribution with the parities of the reference simulator's record distribution. *)
-From Coq Require Import ZArith QArith List Bool Arith String.
+From Coq Require Import ZArith QArith List Bool Arith String Permutation.
 Import ListNotations.
 Require Import TV.Base.EP TV.Model.Lane TV.Model.Parse TV.gen.Gen_sampling_graph TV.Proofs.AnnotProofs.
 
@@ -33,6 +33,25 @@ Theorem C03_parity_additive : forall l1 l2 r, parity (l1 ++ l2) r = xorb (parity
 Proof. exact parity_app. Qed.
 Theorem C03_repeated_target_cancels : forall i r, parity [i; i] r = false.
 Proof. exact parity_repeated. Qed.
+(* the order of a detector's targets is irrelevant; detectors and observables are GF(2)-linear in the measurement record
+   (so a record error e flips detector d exactly by parity d e); one flipped record bit flips a detector iff it is
+   targeted an odd number of times *)
+Theorem C03_target_order_irrelevant : forall l1 l2 r, Permutation l1 l2 -> parity l1 r = parity l2 r.
+Proof. exact parity_perm. Qed.
+Theorem C03_parity_linear_in_record : forall l r r1 r2, (forall i, nth i r false = xorb (nth i r1 false) (nth i r2 false)) ->
+  parity l r = xorb (parity l r1) (parity l r2).
+Proof. exact parity_linear. Qed.
+Theorem C03_single_flip : forall l j r r', (forall i, nth i r' false = xorb (nth i r false) (Nat.eqb i j)) ->
+  parity l r' = xorb (parity l r) (Nat.odd (count_occ Nat.eq_dec l j)).
+Proof. exact parity_single_flip. Qed.
+Theorem C03_detector_outcome_linear : forall s r r1 r2, (forall i, nth i r false = xorb (nth i r1 false) (nth i r2 false)) ->
+  det_outcome s r = map (fun ab => xorb (fst ab) (snd ab)) (combine (det_outcome s r1) (det_outcome s r2)).
+Proof. exact det_outcome_linear. Qed.
+Example C03_single_flip_hyp_inhabited : forall i, nth i [true; true] false = xorb (nth i [true; false] false) (Nat.eqb i 1).
+Proof. intros [|[|[|i]]]; reflexivity. Qed.
+Theorem C03_observable_include_order_irrelevant : forall ops nm dets pobs1 pobs2 k r, Permutation pobs1 pobs2 ->
+  parity (obs_targets (mkPS ops nm dets pobs1) k) r = parity (obs_targets (mkPS ops nm dets pobs2) k) r.
+Proof. exact obs_include_order_irrelevant. Qed.
 Theorem C03_lookback : forall nm k, tvalue nm (TRec k) = if (Nat.leb 1 k && Nat.leb k nm)%bool then Some (nm - k)%nat else None.
 Proof. exact lookback_resolution. Qed.
 Example C03_layout_example :
